@@ -11,6 +11,25 @@ fn list(n: usize, f: impl Fn(usize) -> String) -> String {
 
 pub fn programs() -> Vec<String> {
     let mut v = Vec::new();
+    // error messages that quote an array with p positional and k keyed entries, every mix of sizes
+    // around 16 (a rendering that abbreviates, pages or pre-sizes its buffer meets each case)
+    for p in [0usize, 1, 3, 15, 16, 17, 40] {
+        for k in [0usize, 1, 2, 15, 16, 17, 40] {
+            let mut b = String::new();
+            if p > 0 {
+                b.push_str(&format!("rock w with {}\n", list(p, |i| (i + 1).to_string())));
+            }
+            if k > 0 {
+                b.push_str(&format!("put 0 into c\nwhile c is less than {}\nput \"a: \" plus c into kk\nlet w at kk be c\nbuild c up\n\n", k));
+            }
+            if p + k == 0 {
+                b.push_str("rock w\n");
+            }
+            for e in ["say w at w\n", "say w is less than \"s\"\n", "w taking 1\n"] {
+                v.push(format!("{}say 1\n{}say 2\n", b, e));
+            }
+        }
+    }
     for &n in SIZES {
         // rock with n values, then read every element and one past the end
         let mut p = format!("rock w with {}\nsay w\n", list(n, |i| (i + 1).to_string()));
